@@ -1,6 +1,23 @@
 package main
 
-import "verif/harness/mc"
+import (
+	"encoding/json"
+	"fmt"
+	"go/ast"
+	"go/importer"
+	"go/parser"
+	"go/scanner"
+	"go/token"
+	"go/types"
+	"os"
+	"path/filepath"
+	"regexp"
+	"strings"
+	"time"
+
+	"verif/harness/mc"
+	pg "verif/harness/progenum"
+)
 
 func isStatic(prop string) bool {
 	switch prop {
@@ -10,6 +27,640 @@ func isStatic(prop string) bool {
 	return false
 }
 
+// ---------------------------------------------------------------- families
+
+func wellFormedOnly(fs []*pg.Flow) []*pg.Flow {
+	var o []*pg.Flow
+	for _, f := range fs {
+		if ok, _ := f.WellFormed(); ok {
+			o = append(o, f)
+		}
+	}
+	return o
+}
+
+// graphFamily: every flow structure inside the bound, ill-formed ones included.
+func graphFamily(th bool) []*pg.Program {
+	var ps []*pg.Program
+	for nt := 1; nt <= 2; nt++ {
+		for _, f := range pg.EnumFlows(nt, 2, false) {
+			ps = append(ps, flowProg(f, fmt.Sprintf("G2/%dtypes", nt)))
+		}
+	}
+	for _, f := range pg.EnumFlows(1, 2, true) {
+		if hasPred(f) {
+			ps = append(ps, flowProg(f, "G2pred/1types"))
+		}
+	}
+	for _, f := range pg.EnumUnary3(2) {
+		ps = append(ps, flowProg(f, "G3/2types"))
+	}
+	if th {
+		for _, f := range pg.EnumFlows(3, 2, false) {
+			ps = append(ps, flowProg(f, "G2/3types"))
+		}
+		for _, f := range pg.EnumUnary3(3) {
+			ps = append(ps, flowProg(f, "G3/3types"))
+		}
+		for _, f := range pg.EnumFlows(2, 2, true) {
+			if hasPred(f) {
+				ps = append(ps, flowProg(f, "G2pred/2types"))
+			}
+		}
+	}
+	// listing orders of well-formed shapes
+	for _, n := range []string{"chain2", "multi", "join", "invoke", "pthru"} {
+		f := pg.Shape(n)
+		f.Conc = "2"
+		max := 24
+		if th {
+			max = 720
+		}
+		for _, o := range pg.Orders(f, max) {
+			g := f.Clone()
+			g.Order = o
+			ps = append(ps, flowProg(g, "L:"+n))
+		}
+	}
+	return ps
+}
+
+func hasPred(f *pg.Flow) bool {
+	for _, t := range f.Tasks {
+		if t.Pred != nil {
+			return true
+		}
+	}
+	return false
+}
+
+const asgHeader = `//go:build cff
+// +build cff
+
+package PKG
+
+import (
+	"bytes"
+	"context"
+	"io"
+
+	"go.uber.org/cff"
+)
+
+var _ bytes.Buffer
+var _ io.Reader
+
+type MyInt_ID int
+type Bytes_ID []byte
+type S_ID struct{ X int }
+type Iface_ID interface{ M() }
+
+func (*S_ID) M() {}
+`
+
+var asgTypes = []string{"int", "MyInt_ID", "string", "*bytes.Buffer", "io.Reader", "io.ReadWriter", "any", "[]byte", "Bytes_ID", "struct{}", "S_ID", "*S_ID", "Iface_ID"}
+
+func comparableKey(t string) bool { return t != "[]byte" && t != "Bytes_ID" }
+
+// assignable decides with go/types whether a value of type from may be
+// assigned to a variable of type to (the Go specification's rule).
+func assignable(from, to string) bool {
+	src := strings.ReplaceAll(asgHeader, "PKG", "p")
+	src = strings.ReplaceAll(src, "//go:build cff\n// +build cff\n", "")
+	src = strings.ReplaceAll(src, "\t\"go.uber.org/cff\"\n", "")
+	src = strings.ReplaceAll(src, "\t\"context\"\n", "")
+	src += fmt.Sprintf("\nvar from %s\nvar to %s = from\n", from, to)
+	src = strings.ReplaceAll(src, "_ID", "")
+	fset := token.NewFileSet()
+	f, err := parser.ParseFile(fset, "p.go", src, 0)
+	if err != nil {
+		mc.ToolError("assignable: %v\n%s", err, src)
+	}
+	conf := types.Config{Importer: importer.ForCompiler(fset, "source", nil), Error: func(error) {}}
+	_, err = conf.Check("p", fset, []*ast.File{f}, nil)
+	return err == nil
+}
+
+// asgFamily: Slice/Map element-vs-parameter type pairs, both directions.
+func asgFamily() []*pg.Program {
+	var ps []*pg.Program
+	add := func(kind, body string, ok bool) {
+		exp := "reject"
+		if ok {
+			exp = "accept"
+		}
+		ps = append(ps, &pg.Program{Fam: "ASG:" + kind, Raw: asgHeader + "\nfunc run_ID() error {\n\treturn cff.Parallel(context.Background(),\n\t\t" + body + ",\n\t)\n}\n", Expect: exp})
+	}
+	for _, e := range asgTypes {
+		for _, p := range asgTypes {
+			add(fmt.Sprintf("slice elem=%s param=%s", e, p), fmt.Sprintf("cff.Slice(func(i int, v %s) {}, []%s{})", p, e), assignable(e, p))
+		}
+	}
+	for _, e := range asgTypes {
+		for _, p := range asgTypes {
+			if comparableKey(e) {
+				add(fmt.Sprintf("mapkey elem=%s param=%s", e, p), fmt.Sprintf("cff.Map(func(k %s, v int) {}, map[%s]int{})", p, e), assignable(e, p))
+			}
+			add(fmt.Sprintf("mapval elem=%s param=%s", e, p), fmt.Sprintf("cff.Map(func(k string, v %s) {}, map[string]%s{})", p, e), assignable(e, p))
+		}
+	}
+	for i := range ps {
+		ps[i].Raw = strings.ReplaceAll(ps[i].Raw, "_ID", "_ID")
+	}
+	return ps
+}
+
+// specialFamily: spelling and context features, and hand-written corner cases.
+func specialFamily() []*pg.Program {
+	var ps []*pg.Program
+	feat := func(fam string, mod func(p *pg.Program)) {
+		for _, n := range []string{"chain2", "multi"} {
+			f := pg.Shape(n)
+			f.Conc = "2"
+			p := flowProg(f, "S:"+fam)
+			mod(p)
+			ps = append(ps, p)
+		}
+		q := pg.Pars(3, false)
+		par := q[len(q)-2].Clone()
+		par.Conc = "2"
+		p := parProg(par, "S:"+fam)
+		mod(p)
+		ps = append(ps, p)
+		// a parallel with instrumented task (uses time/debug in other template paths)
+		par2 := &pg.Parallel{Items: []pg.Item{{Kind: "task", Err: true, Ctx: true}, {Kind: "map", Err: true, End: &pg.End{Err: true}}}, Conc: "2"}
+		p2 := parProg(par2, "S:"+fam)
+		mod(p2)
+		ps = append(ps, p2)
+	}
+	feat("plain", func(p *pg.Program) {})
+	feat("ctx-alias", func(p *pg.Program) {
+		p.F.CtxAlias = "xctx"
+		if p.Flow != nil {
+			p.Flow.Tasks[0].Ctx = true
+		}
+	})
+	feat("time-plain", func(p *pg.Program) { p.F.TimeImp = "plain" })
+	feat("time-alias", func(p *pg.Program) { p.F.TimeImp = "alias" })
+	feat("time-other", func(p *pg.Program) { p.F.TimeImp = "other" })
+	feat("cff-alias", func(p *pg.Program) { p.F.CffAlias = "c" })
+	feat("paren", func(p *pg.Program) { p.F.Paren = true })
+	feat("surround", func(p *pg.Program) { p.F.Surround = true })
+	for _, enc := range []string{"closure", "nested2", "generic", "method", "defer"} {
+		enc := enc
+		feat("enclose="+enc, func(p *pg.Program) { p.F.Enclose = enc })
+	}
+	for _, sh := range []string{"context", "cff", "time", "debug", "ctx", "err", "sched", "emitter", "tasks", "task0", "task1", "v1", "v2", "p0", "pred1", "flowInfo", "flowEmitter", "schedInfo", "schedEmitter", "startTime", "parallelInfo", "directiveInfo", "parallelEmitter", "sliceTask0Slice", "sliceTask0Jobs", "mapTask0Jobs", "key", "val", "idx", "recovered", "stacktrace", "taskEmitter", "t"} {
+		sh := sh
+		feat("shadow="+sh, func(p *pg.Program) {
+			p.F.Shadow = []string{sh}
+			if p.Par != nil {
+				p.Par.Conc = "expr"
+			}
+			// the user's own code must stay type-correct: it cannot name a
+			// package through an identifier it shadows
+			if sh == "context" {
+				p.F.CtxAlias = "xctx"
+			}
+			if sh == "cff" {
+				p.F.CffAlias = "c"
+			}
+		})
+	}
+	for _, sp := range []string{pg.SpPtr, pg.SpBasic, pg.SpSlice, pg.SpMap, pg.SpGeneric, pg.SpExt} {
+		f := pg.Shape("multi")
+		for i := range f.Types {
+			f.Types[i] = sp
+		}
+		ps = append(ps, flowProg(f, "S:types="+sp))
+	}
+	for _, form := range []string{"func", "method", "var"} {
+		f := pg.Shape("join")
+		for i := range f.Tasks {
+			f.Tasks[i].Form = form
+		}
+		ps = append(ps, flowProg(f, "S:form="+form))
+	}
+	raw := func(fam, expect, body string) {
+		ps = append(ps, &pg.Program{Fam: "S:" + fam, Expect: expect, Raw: "//go:build cff\n// +build cff\n\npackage PKG\n\nimport (\n\t\"context\"\n\n\t\"go.uber.org/cff\"\n)\n\n" + body})
+	}
+	raw("nested-directive", "accept", `func run_ID(ctx context.Context) (int, error) {
+	var out int
+	err := cff.Flow(ctx,
+		cff.Results(&out),
+		cff.Task(func() (int, error) {
+			var inner int
+			err := cff.Flow(ctx,
+				cff.Results(&inner),
+				cff.Task(func() int { return 42 }),
+			)
+			return inner, err
+		}),
+	)
+	return out, err
+}
+`)
+	raw("invoke-nonconst", "", `func run_ID(ctx context.Context, b bool) error {
+	return cff.Flow(ctx,
+		cff.Task(func() error { return nil }, cff.Invoke(b)),
+	)
+}
+`)
+	raw("two-directives-one-func", "accept", `func run_ID(ctx context.Context) (a int, b string, err error) {
+	if err = cff.Flow(ctx, cff.Results(&a), cff.Task(func() int { return 1 })); err != nil {
+		return
+	}
+	err = cff.Parallel(ctx, cff.Task(func() { b = "x" }))
+	return
+}
+`)
+	raw("directive-in-var-init", "accept", `var v_ID = func() error {
+	var x int
+	return cff.Flow(context.Background(), cff.Results(&x), cff.Task(func() int { return 1 }))
+}()
+`)
+	raw("directive-in-init", "accept", `func init() {
+	var x int
+	_ = cff.Flow(context.Background(), cff.Results(&x), cff.Task(func() int { return 1 }))
+}
+`)
+	raw("directive-in-go-stmt", "accept", `func run_ID(ctx context.Context) {
+	done := make(chan error, 1)
+	go func() { done <- cff.Parallel(ctx, cff.Task(func() {})) }()
+	<-done
+}
+`)
+	raw("nonconst-concurrency-and-coe", "accept", `func run_ID(ctx context.Context, n int, c bool) error {
+	return cff.Parallel(ctx, cff.Concurrency(n*2), cff.ContinueOnError(c && n > 1), cff.Task(func() error { return nil }))
+}
+`)
+	raw("params-use-err-variable", "accept", `func run_ID(ctx context.Context) (string, error) {
+	var out string
+	err := error(nil)
+	n := 3
+	if err == nil {
+		err = cff.Flow(ctx, cff.Params(n), cff.Results(&out), cff.Task(func(i int) string { return "x" }))
+	}
+	return out, err
+}
+`)
+	raw("slice-noindex-sliceend", "accept", `func run_ID(ctx context.Context, s []int) error {
+	return cff.Parallel(ctx, cff.Slice(func(v int) {}, s, cff.SliceEnd(func() {})))
+}
+`)
+	return ps
+}
+
+// staticProgs returns the program list of a static property check.
+func staticProgs(prop string, th bool) []*pg.Program {
+	var ps []*pg.Program
+	switch prop {
+	case "C14":
+		ps = append(ps, graphFamily(th)...)
+		ps = append(ps, asgFamily()...)
+	case "C13", "C20":
+		for _, p := range graphFamily(false) {
+			if p.Flow != nil {
+				if ok, _ := p.Flow.WellFormed(); ok {
+					ps = append(ps, p)
+				}
+			}
+		}
+		ps = append(ps, specialFamily()...)
+		// the programs of the run-time families
+		for _, q := range []string{"C04", "C10", "C11", "C18"} {
+			pl, err := planFor(q, "quick")
+			if err == nil {
+				for _, p := range pl.progs {
+					p.Fam = q + ":" + p.Fam
+					ps = append(ps, p)
+				}
+			}
+		}
+		for _, p := range asgFamily() {
+			if p.Expect == "accept" {
+				ps = append(ps, p)
+			}
+		}
+	}
+	seen := map[string]bool{}
+	var out []*pg.Program
+	for _, p := range ps {
+		k := progKey(p)
+		if p.Raw != "" {
+			k += p.Raw
+		}
+		if seen[k] {
+			continue
+		}
+		seen[k] = true
+		out = append(out, p)
+	}
+	for i, p := range out {
+		p.ID = fmt.Sprintf("Z%05d", i)
+	}
+	return out
+}
+
+// ---------------------------------------------------------------- oracles
+
+var posDiag = regexp.MustCompile(`[A-Za-z0-9_./-]+\.go:\d+:\d+`)
+
+var directiveNames = map[string]bool{"Flow": true, "Parallel": true, "Params": true, "Results": true, "WithEmitter": true, "Task": true, "InstrumentFlow": true,
+	"Concurrency": true, "ContinueOnError": true, "FallbackWith": true, "Predicate": true, "Instrument": true, "Invoke": true, "InstrumentParallel": true,
+	"Tasks": true, "Slice": true, "SliceEnd": true, "Map": true, "MapEnd": true}
+
+// leftoverDirectives scans a generated file for calls to code-generation directives.
+func leftoverDirectives(path string) ([]string, error) {
+	fset := token.NewFileSet()
+	f, err := parser.ParseFile(fset, path, nil, 0)
+	if err != nil {
+		return nil, err
+	}
+	cffName := ""
+	for _, imp := range f.Imports {
+		if strings.Trim(imp.Path.Value, `"`) == "go.uber.org/cff" {
+			cffName = "cff"
+			if imp.Name != nil {
+				cffName = imp.Name.Name
+			}
+		}
+	}
+	var found []string
+	if cffName == "" {
+		return nil, nil
+	}
+	ast.Inspect(f, func(n ast.Node) bool {
+		call, ok := n.(*ast.CallExpr)
+		if !ok {
+			return true
+		}
+		sel, ok := call.Fun.(*ast.SelectorExpr)
+		if !ok {
+			return true
+		}
+		id, ok := sel.X.(*ast.Ident)
+		if ok && id.Name == cffName && id.Obj == nil && directiveNames[sel.Sel.Name] {
+			found = append(found, fmt.Sprintf("%s.%s at %s", cffName, sel.Sel.Name, fset.Position(call.Pos())))
+		}
+		return true
+	})
+	return found, nil
+}
+
+// tokenStream returns the comment-free token stream of a Go file.
+func tokenStream(path string) (string, error) {
+	src, err := os.ReadFile(path)
+	if err != nil {
+		return "", err
+	}
+	fset := token.NewFileSet()
+	file := fset.AddFile(path, fset.Base(), len(src))
+	var s scanner.Scanner
+	s.Init(file, src, nil, 0)
+	var b strings.Builder
+	for {
+		_, tok, lit := s.Scan()
+		if tok == token.EOF {
+			break
+		}
+		if tok == token.SEMICOLON && lit == "\n" {
+			b.WriteString(";\n")
+			continue
+		}
+		if lit != "" {
+			b.WriteString(lit)
+		} else {
+			b.WriteString(tok.String())
+		}
+		b.WriteByte(' ')
+	}
+	return b.String(), nil
+}
+
 func staticMain(prop, tier, build, overlay, repo, cffBin string) {
-	mc.ToolError("static plan for %s not built yet", prop)
+	th := tier == "thorough"
+	rep := mc.NewReporter(prop)
+	progs := staticProgs(prop, th)
+	modes := []genMode{{"base", false}}
+	if prop == "C13" {
+		modes = []genMode{{"base", false}, {"source-map", false}, {"base", true}, {"source-map", true}}
+	}
+	if prop == "C20" {
+		modes = []genMode{{"base", false}, {"source-map", false}}
+	}
+	evaluations, distinct := 0, 0
+	accepted, rejectedN := 0, 0
+	var samples []any
+	famCount := map[string]int{}
+	sets := map[string]*genSet{}
+	for _, m := range modes {
+		name := m.mode
+		if m.autoInst {
+			name += "+auto"
+		}
+		g := &genSet{dir: filepath.Join(build, "gen-"+name), mode: m.mode, autoInst: m.autoInst, progs: progs}
+		g.write(repo, mc.VerifDir())
+		g.runCff(cffBin, mc.Workers())
+		sets[name] = g
+		// compile everything that was written (C13) - also needed to know that accepted programs are usable
+		g.broken = map[string]string{}
+		if prop != "C14" || true {
+			g.buildAll()
+		}
+		for _, p := range progs {
+			evaluations++
+			out := g.outOf(p.ID)
+			srcBase := filepath.Base(g.srcFile[p.ID])
+			written := g.written[p.ID]
+			named := strings.Contains(out.stderr, srcBase+":")
+			scj, _ := json.Marshal(p)
+			key := progKey(p) + " mode=" + name
+			report := func(pr, msg string) {
+				rep.Report(&mc.Replay{Property: pr, Engine: "genmc-static", Key: key, Scenario: scj, Message: msg,
+					Note: "input: " + g.srcFile[p.ID]})
+			}
+			if strings.Contains(out.stderr, "panic:") || strings.Contains(out.stderr, "goroutine ") {
+				if named || !written {
+					report("C13", "the cff tool died with a Go panic: "+firstLines(grepPanic(out.stderr), 4))
+					continue
+				}
+			}
+			want := ""
+			if p.Flow != nil {
+				if ok, _ := p.Flow.WellFormed(); ok {
+					want = "accept"
+				} else {
+					want = "reject"
+				}
+			} else if p.Par != nil {
+				want = "accept"
+			} else {
+				want = p.Expect
+			}
+			isAccepted := written && !named
+			if isAccepted {
+				accepted++
+			} else {
+				rejectedN++
+			}
+			famCount[p.Fam]++
+			if prop == "C14" {
+				switch {
+				case want == "accept" && !isAccepted:
+					report("C14", "cff rejected a well-formed program: "+firstLines(grepFile(out.stderr, srcBase), 3))
+				case want == "reject" && isAccepted:
+					_, why := wfReason(p)
+					report("C14", "cff accepted an ill-formed program ("+why+")")
+				case want == "reject":
+					if written {
+						report("C14", "cff reported an error for the file but still wrote output for it")
+					}
+					if !named {
+						report("C14", "cff wrote no output but printed no diagnostic naming the file")
+					}
+					if out.exit == 0 {
+						report("C14", "cff rejected the file but exited with status 0")
+					}
+				}
+			}
+			if prop == "C13" {
+				if !isAccepted && want == "accept" && named {
+					// rejected with diagnostics: must be positioned and non-zero
+					if out.exit == 0 {
+						report("C13", "cff printed errors for the file but exited 0")
+					}
+					if !posDiag.MatchString(grepFile(out.stderr, srcBase)) {
+						report("C13", "diagnostic without file:line:col position: "+firstLines(grepFile(out.stderr, srcBase), 2))
+					}
+				}
+				if isAccepted {
+					if msg, bad := g.broken[p.ID]; bad {
+						report("C13", "cff exited successfully for this file but its output does not compile: "+msg)
+					} else {
+						left, err := leftoverDirectives(g.genFile[p.ID])
+						if err != nil {
+							report("C13", "output does not parse: "+err.Error())
+						} else if len(left) > 0 {
+							report("C13", "unexpanded directive call remains in the output: "+strings.Join(left, ", "))
+						}
+					}
+				}
+			}
+			if len(samples) < 5 && (evaluations%997 == 1) {
+				samples = append(samples, map[string]any{"program": progKey(p), "mode": name, "expected": want, "accepted": isAccepted, "source_file": filepath.Base(g.srcFile[p.ID])})
+			}
+		}
+	}
+	if prop == "C20" {
+		a, b := sets["base"], sets["source-map"]
+		for _, p := range progs {
+			if !a.accepted[p.ID] || !b.accepted[p.ID] {
+				if a.accepted[p.ID] != b.accepted[p.ID] {
+					scj, _ := json.Marshal(p)
+					rep.Report(&mc.Replay{Property: "C20", Engine: "genmc-static", Key: progKey(p), Scenario: scj, Message: "base and source-map modes disagree on accepting the program"})
+				}
+				continue
+			}
+			distinct++
+			ta, e1 := tokenStream(a.genFile[p.ID])
+			tb, e2 := tokenStream(b.genFile[p.ID])
+			if e1 != nil || e2 != nil {
+				mc.ToolError("C20: %v %v", e1, e2)
+			}
+			if ta != tb {
+				scj, _ := json.Marshal(p)
+				rep.Report(&mc.Replay{Property: "C20", Engine: "genmc-static", Key: progKey(p), Scenario: scj,
+					Message: "source-map output differs from base output beyond comments/line directives: " + firstDiff(ta, tb)})
+			}
+		}
+	}
+	nontrivial := 0
+	for range famCount {
+		nontrivial++
+	}
+	wall := time.Since(rep.Start).Seconds()
+	if len(samples) == 0 {
+		samples = append(samples, map[string]any{"note": "no program"})
+	}
+	ev := &mc.Evidence{PropertyID: prop, Tier: tier, Seed: mc.Seed(), Level: "model_checking", WallS: wall, Violations: rep.Violations,
+		Coverage: map[string]any{
+			"evaluations":                   evaluations,
+			"distinct_nontrivial":           len(progs),
+			"states":                        len(progs),
+			"transitions":                   evaluations,
+			"traces_validated_against_impl": evaluations,
+			"samples":                       samples,
+			"exhaustive":                    true,
+			"programs":                      len(progs),
+			"modes":                         len(modes),
+			"accepted":                      accepted,
+			"rejected":                      rejectedN,
+			"families":                      famCount,
+			"compared_pairs":                distinct,
+			"known_findings_hit":            rep.KnownHits,
+			"rule":                          "bounded-exhaustive enumeration of abstract programs (all flow structures with <=2 tasks over <=2 (thorough 3) types incl. ill-formed ones, all 3-task unary flows, all listing orders of named shapes, the Slice/Map assignability lattice, spelling/context features); each is rendered to Go and processed by the cff binary built from the working tree; states = distinct programs, transitions = (program, mode) evaluations; a program is non-trivial/distinct by its structural key modulo type renaming and task order",
+		},
+		Assumptions: []string{"reference well-formedness rules are those of cff's documentation (DESIGN.md §4.3)", "go/types decides assignability and compilation"}}
+	if err := mc.WriteEvidence(ev); err != nil {
+		mc.ToolError("evidence: %v", err)
+	}
+	fmt.Printf("%s %s: %d programs x %d modes, %d accepted / %d rejected evaluations, %.1fs\n", prop, tier, len(progs), len(modes), accepted, rejectedN, wall)
+	os.Exit(rep.ExitCode())
+}
+
+func wfReason(p *pg.Program) (bool, string) {
+	if p.Flow != nil {
+		return p.Flow.WellFormed()
+	}
+	return false, p.Fam
+}
+
+func grepPanic(s string) string {
+	i := strings.Index(s, "panic:")
+	if i < 0 {
+		i = strings.Index(s, "goroutine ")
+	}
+	if i < 0 {
+		return s
+	}
+	return truncate(s[i:], 600)
+}
+
+func firstDiff(a, b string) string {
+	la, lb := strings.Split(a, "\n"), strings.Split(b, "\n")
+	for i := 0; i < len(la) && i < len(lb); i++ {
+		if la[i] != lb[i] {
+			return fmt.Sprintf("statement %d: base %q vs source-map %q", i, truncate(la[i], 120), truncate(lb[i], 120))
+		}
+	}
+	return fmt.Sprintf("lengths differ: %d vs %d statements", len(la), len(lb))
+}
+
+// buildAll compiles every package of the module (without the cff tag);
+// generated files that do not compile are recorded in g.broken and removed.
+func (g *genSet) buildAll() {
+	for attempt := 0; attempt < 60; attempt++ {
+		var pk []string
+		for _, p := range g.pkgs() {
+			pk = append(pk, "./"+p)
+		}
+		args := append([]string{"build", "-gcflags=-e"}, pk...)
+		_, se, code := run(g.dir, goEnv, "go", args...)
+		if code == 0 {
+			return
+		}
+		removed := 0
+		for id, msg := range g.blame(se) {
+			if _, dup := g.broken[id]; !dup && g.written[id] {
+				g.broken[id] = msg
+				os.Remove(g.genFile[id])
+				removed++
+			}
+		}
+		if removed == 0 {
+			mc.ToolError("building generated packages failed and no generated file is to blame:\n%s", truncate(se, 3000))
+		}
+	}
+	mc.ToolError("building generated packages did not converge")
 }
